@@ -9,6 +9,7 @@ package main
 import (
 	"bytes"
 	"container/heap"
+	"flag"
 	"fmt"
 	"strconv"
 	"strings"
@@ -385,10 +386,16 @@ func parseKeys(s string) [][]byte {
 	return res
 }
 
+var mode = flag.String("mode", "order", "order: comparator / comparer members / result heap (default) | respbatch: the server's response batcher")
+
 func main() {
 	f := hx.ParseFlags()
 	o := hx.NewOut(f.OutDir)
 	defer o.Close()
+	if *mode == "respbatch" {
+		mainRespBatch(f, o)
+		return
+	}
 	h := &H{o}
 	r := hx.NewRng(f.Seed)
 
